@@ -339,6 +339,17 @@ func RunCheck(cfg *CheckConfig) int {
 				undecided = append(undecided, fmt.Sprintf("UNDECIDED property=%s obligation=%s reason=solver-%s-on-unchanged-vc", cfg.Property, r.Name, r.Status))
 				continue
 			}
+			if (inBase || cfg.NoBaseline || len(baseP) > 0) && r.Status == "timeout" && cfg.Tier != "thorough" {
+				// a changed VC that merely ran out of time: one retry with a longer limit before calling it
+				// a failed proof (a harmless edit of a function whose proof is slow must not become an alarm)
+				rr := Solve(r.script, work, r.Name, timeout*3, false)
+				if rr.Status == "unsat" {
+					r.Status, r.Solver, r.Seconds = "unsat", rr.Solver, rr.Seconds
+					discharged++
+					solverCount[r.Solver]++
+					continue
+				}
+			}
 			if inBase || cfg.NoBaseline || len(baseP) > 0 {
 				// the obligation's VC is not the one discharged on the unchanged tree (changed or new):
 				// the proof no longer goes through
